@@ -76,6 +76,11 @@ var zzVerifHarnesses = map[string]func(){
 %s}
 
 func TestZZVerifReplay(t *testing.T) {
+	// results go to a file as well as to stdout: a harness may close or redirect the process's stdout
+	var resFile *os.File
+	if p := os.Getenv("VERIF_REPLAY_OUT"); p != "" {
+		resFile, _ = os.OpenFile(p, os.O_WRONLY|os.O_APPEND|os.O_CREATE, 0o644)
+	}
 	for _, f := range strings.Split(os.Getenv("VERIF_REPLAY_FILES"), ",") {
 		if f == "" {
 			continue
@@ -108,6 +113,9 @@ func TestZZVerifReplay(t *testing.T) {
 		res["observed"] = vrt.Observed()
 		out, _ := json.Marshal(res)
 		fmt.Printf("\nVERIF-REPLAY %%s\n", out)
+		if resFile != nil {
+			fmt.Fprintf(resFile, "\nVERIF-REPLAY %%s\n", out)
+		}
 	}
 }
 `
@@ -183,7 +191,8 @@ func nativeReplay(rel, module string, files []string) (map[string]replayResult, 
 	}
 	cmd := exec.Command("go", "test", "-tags", "verif", "-vet=off", "-count=1", "-overlay", ovFile, "-run", "^TestZZVerifReplay$", "-timeout", "300s", "-v", pattern)
 	cmd.Dir = wd
-	cmd.Env = append(os.Environ(), "VERIF_REPLAY_FILES="+strings.Join(files, ","), "GOFLAGS=-mod=mod", "GOPROXY=off", "GOSUMDB=off", "GOTOOLCHAIN=local")
+	resPath := filepath.Join(tmp, "results.txt")
+	cmd.Env = append(os.Environ(), "VERIF_REPLAY_FILES="+strings.Join(files, ","), "VERIF_REPLAY_OUT="+resPath, "GOFLAGS=-mod=mod", "GOPROXY=off", "GOSUMDB=off", "GOTOOLCHAIN=local")
 	var out bytes.Buffer
 	cmd.Stdout = &out
 	cmd.Stderr = &out
@@ -191,6 +200,10 @@ func nativeReplay(rel, module string, files []string) (map[string]replayResult, 
 	runErr := cmd.Run()
 	_ = t0
 	res := map[string]replayResult{}
+	if fb, err := os.ReadFile(resPath); err == nil {
+		out.WriteString("\n")
+		out.Write(fb)
+	}
 	for _, line := range strings.Split(out.String(), "\n") {
 		if !strings.HasPrefix(line, "VERIF-REPLAY ") {
 			continue
